@@ -78,6 +78,7 @@ GENERATORS = [
     ("gen_mqtt", "miniconf_mqtt/src/lib.rs", "Mqtt.lean"),
     ("gen_helpers", ("miniconf/src/json.rs", "miniconf/src/postcard.rs"), "Helpers.lean"),
     ("gen_keys", ("miniconf/src/key.rs", "miniconf/src/iter.rs", "miniconf/src/packed.rs"), "Keys.lean"),
+    ("gen_wrappers", "miniconf/src/impls.rs", "Wrappers.lean"),
     # the OUTPUT of the derive macro (its own source, run by /verif/expander) on every type of the generated corpus
     ("gen_derive", ("miniconf_derive/src/tree.rs", "miniconf_derive/src/field.rs", os.path.join(HARNESS, "src", "gen_types.rs")),
      "Derive.lean"),
